@@ -18,9 +18,10 @@ def run(tier):
     chk = Check("C04", tier, "model_checking")
     build_harness("hcore")
     nprog = 120 if tier == "quick" else 3000
-    rn, vw, tw, tb, p1, p2, p1b = parallel([refine_nested_run, views_run, towers_run, tables_run,
-                                        lambda: programs_run(1, 6, nprog, "prog4_1_6"), lambda: programs_run(2, 8, nprog, "prog4_2_8"),
-                                        lambda: programs_run(1, 12, nprog, "prog4_1_12")], max_par=7)
+    rn, vw, tw, tb, p1, p2, p1b, p3 = parallel([refine_nested_run, views_run, towers_run, tables_run,
+                                            lambda: programs_run(1, 6, nprog, "prog4_1_6"), lambda: programs_run(2, 8, nprog, "prog4_2_8"),
+                                            lambda: programs_run(1, 12, nprog, "prog4_1_12"),
+                                            lambda: programs_run(3, 9, nprog, "prog4_3_9")], max_par=8)
     chk.add_tlc(rn, "nested dual numbers refine layer A symbolically: layer B instantiated over layer B (13 scalar type pairs of total "
                     "order <= 4) against Leibniz / Faa di Bruno / the implicit quotient on the flattened jet; tower of towers for the "
                     "chain rule; from_inner; NDERIV = sum over levels")
@@ -30,13 +31,13 @@ def run(tier):
                     "proved on the flattened layer-A jets; NDERIV = sum over levels")
     chk.add_tlc(tw, "towers")
     chk.add_tlc(tb, "layer-A tables; NDerivIsMaxSlotLength")
-    for r, nm in ((vw, "Views"), (tw, "Towers"), (tb, "Tables"), (p1, "Programs"), (p2, "Programs"), (p1b, "Programs")):
+    for r, nm in ((vw, "Views"), (tw, "Towers"), (tb, "Tables"), (p1, "Programs"), (p2, "Programs"), (p1b, "Programs"), (p3, "Programs")):
         if r.violated:
             chk.model_violation(r, nm)
     if chk.violations:
         return chk.finish()
     chk.cov["correspondence_members"] = vw.distinct
-    for pr in (p1, p2, p1b):
+    for pr in (p1, p2, p1b, p3):
         chk.add_tlc(pr, "program skeletons")
         rep = run_harness("hcore", ["float-cross", "--tables", ",".join([tb.out_path, tw.out_path, vw.out_path]), "--programs",
                                     pr.out_path, "--seed", str(seed()), "--k", str(K_TOL)], timeout=3000)
@@ -53,7 +54,8 @@ def run(tier):
     if len(chk.distinct) < 40:
         raise ToolError("vacuity: only %d type pairs compared" % len(chk.distinct))
     return chk.finish(rule="one case = pair (concrete configuration, reference configuration) compared on a shared partial derivative; "
-                           "programs from Programs.tla with 1 and 2 inputs, one common f32-representable point per program; members: "
+                           "programs from Programs.tla with 1, 2 and 3 inputs (three inputs: one direction per variable, the only seeding under which "
+                           "the three mixed second-order parts of a third-order type hold different derivatives), one common f32-representable point per program; members: "
                            "Dual3 / Dual<Dual<Dual>> / HHD (third order), Dual2 / Dual2Vec / HyperDual / HyperDualVec / Dual<Dual> "
                            "(second and mixed), DualVec vs Dual, fourth order via Dual2<Dual2>, Dual3<Dual>, HHD<Dual>; each in "
                            "f32/f64 and static/dynamic storage")
